@@ -20,11 +20,11 @@ CONSTANTS Progs, MaxThrows,
           RegisterFirst,      \* knob: reader increments its counter before loading the side flag
           WriterMutex         \* knob: modify takes the writer mutex
 
-VARIABLES prog, sh, th, retmax, ev
-vars == <<prog, sh, th, retmax, ev>>
-View == <<prog, sh, th, retmax>>
+VARIABLES prog, sh, th, retmax, acq, ev
+vars == <<prog, sh, th, retmax, acq, ev>>
+View == <<prog, sh, th, retmax, acq>>
 
-OpName == <<"modify", "read", "read2">>
+OpName == <<"modify", "read", "read2", "relay">>
 Threads == 1..Len(prog)
 NoEv == [t |-> 0, k |-> "init", o |-> "", v |-> 0, w |-> 0]
 E(t, k, o, v, w) == [t |-> t, k |-> k, o |-> o, v |-> v, w |-> w]
@@ -40,16 +40,17 @@ CntName == <<"cntL", "cntR">>
 Init0(p) == [prog |-> p,
              sh |-> [rl |-> TRUE, cl |-> TRUE, cnt |-> <<0, 0>>, wm |-> 0, cp |-> <<[a |-> 0, b |-> 0], [a |-> 0, b |-> 0]>>, thr |-> 0],
              th |-> [t \in 1..Len(p) |-> [pc |-> "idle", op |-> 0, opi |-> 1, res |-> 0, lrl |-> TRUE, lcl |-> TRUE, c |-> 1,
-                                         side |-> 0, ra |-> 0, seen |-> 0, nrd |-> 0, need |-> 0, last |-> 0]],
-             retmax |-> 0, ev |-> NoEv]
-InitWith(p) == LET s == Init0(p) IN prog = s.prog /\ sh = s.sh /\ th = s.th /\ retmax = s.retmax /\ ev = s.ev
-ResetTo(p) == LET s == Init0(p) IN prog' = s.prog /\ sh' = s.sh /\ th' = s.th /\ retmax' = s.retmax /\ ev' = s.ev
+                                         side |-> 0, ra |-> 0, seen |-> 0, nrd |-> 0, need |-> 0, last |-> 0, tk |-> 0]],
+             retmax |-> 0, acq |-> 0, ev |-> NoEv]
+InitWith(p) == LET s == Init0(p) IN prog = s.prog /\ sh = s.sh /\ th = s.th /\ retmax = s.retmax /\ acq = s.acq /\ ev = s.ev
+ResetTo(p) == LET s == Init0(p) IN prog' = s.prog /\ sh' = s.sh /\ th' = s.th /\ retmax' = s.retmax /\ acq' = s.acq /\ ev' = s.ev
 Init == \E p \in Progs : InitWith(p)
 
 \* generic step of thread t: from label, guard, new shared state, updates of the thread record, event
 Do(t, from, guard, sh2, th2, e) ==
     /\ th[t].pc = from /\ guard
     /\ sh' = sh2 /\ th' = [th EXCEPT ![t] = th2] /\ ev' = e /\ UNCHANGED <<prog, retmax>>
+    /\ acq' = IF from = "r3" THEN acq + 1 ELSE acq    \* the harness numbers the handle acquisitions (relay programs)
 Pc(t, l) == [th[t] EXCEPT !.pc = l]
 
 Call(t) ==
@@ -60,14 +61,14 @@ Call(t) ==
                                             !.pc = IF o = 0 THEN (IF WriterMutex THEN "m1" ELSE "m2")
                                                    ELSE (IF RegisterFirst THEN "r1" ELSE "r3")]]
          /\ ev' = E(t, "call", OpName[o + 1], 0, 0)
-    /\ UNCHANGED <<prog, sh, retmax>>
+    /\ UNCHANGED <<prog, sh, retmax, acq>>
 
 Ret(t) ==
     /\ th[t].pc = "ret"
     /\ th' = [th EXCEPT ![t] = [@ EXCEPT !.pc = "idle", !.opi = @ + 1]]
     /\ retmax' = IF th[t].op = 0 /\ th[t].res > retmax THEN th[t].res ELSE retmax
     /\ ev' = E(t, "ret", OpName[th[t].op + 1], th[t].res, 0)
-    /\ UNCHANGED <<prog, sh>>
+    /\ UNCHANGED <<prog, sh, acq>>
 
 First(t) == IF th[t].lrl THEN 2 ELSE 1
 Second(t) == 3 - First(t)
@@ -108,12 +109,18 @@ Writer(t) ==
     \/ Do(t, "m12", TRUE, [sh EXCEPT !.wm = 0], Pc(t, "ret"), E(t, "munlock", "wm", 0, 0))
 
 Inc(i, d) == [sh EXCEPT !.cnt[i] = @ + d]
+HoldsNow(u) == th[u].side # 0 /\ th[u].pc \in {"rw", "r4", "r5", "r8"}
+IsRelay(u) == prog[u][1][1] = 3
+RelayLeft(t) == \E u \in Threads \ {t} : IsRelay(u) /\ (th[u].pc # "idle" \/ th[u].opi <= Len(prog[u]))
+RelayGo(t) == acq > th[t].tk \/ ~RelayLeft(t)
 AfterReg(t) == IF RegisterFirst THEN "r3" ELSE "r4"
 Reader(t) ==
     \/ Do(t, "r1", TRUE, sh, [th[t] EXCEPT !.pc = "r2", !.c = IF sh.cl THEN 1 ELSE 2], E(t, "ald", "cl", B(sh.cl), 0))
     \/ Do(t, "r2", TRUE, Inc(th[t].c, 1), Pc(t, AfterReg(t)), E(t, "arm", CntName[th[t].c], sh.cnt[th[t].c], sh.cnt[th[t].c] + 1))
-    \/ Do(t, "r3", TRUE, sh, [th[t] EXCEPT !.pc = IF RegisterFirst THEN "r4" ELSE "r1", !.side = IF sh.rl THEN 1 ELSE 2],
+    \/ Do(t, "r3", TRUE, sh, [th[t] EXCEPT !.pc = IF RegisterFirst THEN (IF th[t].op = 3 THEN "rw" ELSE "r4") ELSE "r1", !.side = IF sh.rl THEN 1 ELSE 2, !.tk = acq + 1],
           E(t, "ald", "rl", B(sh.rl), 0))
+    \* op 3 (relay): hold the handle until another thread holds one as well - a stream of overlapping short-lived handles
+    \/ Do(t, "rw", RelayGo(t), sh, Pc(t, "r4"), E(t, "relay", "", 0, 0))
     \/ LET i == th[t].side IN
        Do(t, "r4", TRUE, sh, [th[t] EXCEPT !.pc = "r5", !.ra = sh.cp[i].a], EC(t, "rb", i, sh.cp[i].a, 0))
     \/ LET i == th[t].side
@@ -141,12 +148,12 @@ TypeOK == sh.wm \in 0..Len(prog) /\ sh.cnt[1] \in 0..4 /\ sh.cnt[2] \in 0..4
 
 \* C03: a reader holding a handle on a copy never coincides with an open write window on that copy,
 \* and never sees a torn or unstable value
-ReaderIsolation == \A t \in Threads : (th[t].side # 0 /\ th[t].pc \in {"r4", "r5", "r8"}) => ~InWindow(th[t].side)
-NoTornRead == \A t \in Threads : th[t].pc \in {"r8", "ret"} /\ th[t].op \in {1, 2} => th[t].res >= 0
+ReaderIsolation == \A t \in Threads : (th[t].side # 0 /\ th[t].pc \in {"rw", "r4", "r5", "r8"}) => ~InWindow(th[t].side)
+NoTornRead == \A t \in Threads : th[t].pc \in {"r8", "ret"} /\ th[t].op \in {1, 2, 3} => th[t].res >= 0
 \* C03: a read that starts after modify() returned observes that modification and all earlier ones
-Visibility == \A t \in Threads : (th[t].pc \in {"r8", "ret"} /\ th[t].op \in {1, 2} /\ th[t].res >= 0) => IsPref(th[t].need, th[t].seen)
+Visibility == \A t \in Threads : (th[t].pc \in {"r8", "ret"} /\ th[t].op \in {1, 2, 3} /\ th[t].res >= 0) => IsPref(th[t].need, th[t].seen)
 \* C03: the values one reader observes never go backwards
-MonotoneReads == \A t \in Threads : (th[t].pc \in {"r8", "ret"} /\ th[t].op \in {1, 2} /\ th[t].res >= 0) => IsPref(th[t].last, th[t].seen)
+MonotoneReads == \A t \in Threads : (th[t].pc \in {"r8", "ret"} /\ th[t].op \in {1, 2, 3} /\ th[t].res >= 0) => IsPref(th[t].last, th[t].seen)
 \* C03: modifications are applied one at a time to the same sequence of states
 OneOrder == (\A t \in Threads : ~InModify(t)) => (sh.cp[1] = sh.cp[2] /\ ~InWindow(1))
 WritersOneAtATime == Cardinality({t \in Threads : InModify(t)}) <= 1
